@@ -62,6 +62,8 @@ def main():
                 shutil.copy(os.path.join(d, "NOTES.md"), os.path.join(dst, "NOTES.md"))
             m = matrix.get("seeded-" + name, {})
             caught = sorted(k for k, c in m.get("results", {}).items() if c != 0)
+            if not m and os.path.exists(os.path.join(dst, "meta.json")):
+                caught = json.load(open(os.path.join(dst, "meta.json"))).get("caught_by", [])
             meta = {
                 "id": name,
                 "breaks_property": pid,
@@ -95,6 +97,8 @@ def main():
             shutil.copy(os.path.join(d, "NOTES.md"), os.path.join(dst, "NOTES.md"))
         m = matrix.get("equiv-" + name, {})
         alarms = sorted(k for k, c in m.get("results", {}).items() if c != 0)
+        if not m and os.path.exists(os.path.join(dst, "meta.json")):
+            alarms = json.load(open(os.path.join(dst, "meta.json"))).get("alarms", [])
         json.dump({"id": name, "kind": "behaviour-preserving refactoring (suite passes, argument in NOTES.md)", "alarms": alarms}, open(os.path.join(dst, "meta.json"), "w"), indent=1, sort_keys=True)
         e += 1
     print("imported %d seeded changes and %d equivalent refactorings" % (n, e))
